@@ -85,10 +85,18 @@ CheckExtract(ev) ==
   \cup (IF ~ev.panic /\ inO /\ ~ev.err /\ ~exp.err /\ ~ExtractOk(ev, exp) THEN {"extract"} ELSE {})
   \cup (IF ~ev.panic /\ inO /\ ev.err /\ exp.err /\ ~OffsetOk(ev, ev.e) THEN {"offset"} ELSE {})
 
-Check(ev) == IF ev.fn = "Satisfies" THEN CheckSatisfies(ev)
-             ELSE IF ev.fn = "ValidateLicenses" THEN CheckValidate(ev)
-             ELSE IF ev.fn = "ExtractLicenses" THEN CheckExtract(ev)
-             ELSE {"unknown-function"}
+\* stage events (recorded through the hooks; empty when the harness was built without them) must spell
+\* the path of the pipeline the specification prescribes for these arguments
+CheckStages(ev) ==
+  IF ev.panic \/ Len(ev.stages) = 0 THEN {}
+  ELSE IF (ev.fn = "ValidateLicenses" /\ AllInOracle(ev.a)) \/ (ev.fn # "ValidateLicenses" /\ InOracle(ev.e) /\ AllInOracle(ev.a))
+       THEN (IF ev.stages = StagesOf(ev.fn, ev.e, ev.a) THEN {} ELSE {"stage-sequence"})
+       ELSE {}
+
+Check(ev) == (IF ev.fn = "Satisfies" THEN CheckSatisfies(ev)
+              ELSE IF ev.fn = "ValidateLicenses" THEN CheckValidate(ev)
+              ELSE IF ev.fn = "ExtractLicenses" THEN CheckExtract(ev)
+              ELSE {"unknown-function"}) \cup CheckStages(ev)
 
 TraceInit == vPos = 1 /\ vMism = {}
 
